@@ -78,17 +78,17 @@ pub fn machines(opts: &Opts) -> Vec<MCfg> {
         }
         Tier::Thorough => {
             out.push(mk(
-                "pool/depth5",
-                Bounds { builds: 3, passes: 2, clears: 1, drops: 1, clones: 1, flags: 1, fetches: 1, adopts: 1, updates: 2, depth: 5 },
+                "pool/depth4",
+                Bounds { builds: 3, passes: 2, clears: 1, drops: 1, clones: 1, flags: 1, fetches: 1, adopts: 1, updates: 2, depth: 4 },
                 ops.clone(),
                 6,
                 true,
             ));
             out.push(mk(
-                "views-update/depth7",
-                Bounds { builds: 3, passes: 2, clears: 1, drops: 2, clones: 2, flags: 1, fetches: 1, adopts: 0, updates: 2, depth: 7 },
+                "views-update/depth5",
+                Bounds { builds: 2, passes: 2, clears: 0, drops: 1, clones: 1, flags: 1, fetches: 1, adopts: 0, updates: 2, depth: 5 },
                 vec![OpK::Reshape(vec![6]), OpK::Mul],
-                6,
+                5,
                 true,
             ));
             out.push(mk_same(
@@ -98,8 +98,8 @@ pub fn machines(opts: &Opts) -> Vec<MCfg> {
                 6,
             ));
             out.push(mk(
-                "pool/depth4-unmerged",
-                Bounds { builds: 2, passes: 2, clears: 1, drops: 1, clones: 1, flags: 1, fetches: 1, adopts: 0, updates: 1, depth: 4 },
+                "pool/depth3-unmerged",
+                Bounds { builds: 2, passes: 2, clears: 1, drops: 1, clones: 1, flags: 1, fetches: 1, adopts: 0, updates: 1, depth: 3 },
                 ops.clone(),
                 5,
                 false,
